@@ -29,7 +29,7 @@ for p in props:
         na.append({"property_id": i, "reason": NOT_YET.get(i, "check not built yet in this revision (work in progress; see DESIGN.md section 3)")})
 m = {
     "version": 1,
-    "setup_cmd": "cd lean && lake build Skc skcdrv",
+    "setup_cmd": "/venv/bin/python -m harness.translate >/dev/null && cd lean && lake build Skc skcdrv",
     "hooks": {
         "guard": "NORSKREGNESENTRAL_SKCHANGE_VERIF",
         "enable": "no source hooks are needed: scorers/detectors are injected through public constructor arguments and instrumentation is monkey-patched by the harness at run time; checks set NORSKREGNESENTRAL_SKCHANGE_VERIF=1 for uniformity",
